@@ -444,7 +444,14 @@ def src_of_var(f, node):
     return None
 
 
-def classify_guard(f, atom, pol, lenp, POS, LEN):
+def guard_slack(f, atom, pol, lenp, POS, LEN):
+    """the guard (atom, pol) normalised to  len + position - length + k <= 0 : returns k (1 = exact: a chunk is
+    accepted iff it fits together with its terminating NUL; > 1 = refuses chunks that fit; < 1 = unsafe), None if unrelated"""
+    r = classify_guard(f, atom, pol, lenp, POS, LEN, want_slack=True)
+    return r if isinstance(r, int) and not isinstance(r, bool) else None
+
+
+def classify_guard(f, atom, pol, lenp, POS, LEN, want_slack=False):
     """does (atom, pol) entail  len + position + 1 <= length ?  returns the guard text, False when the
     guard is a bound that is off by one (admits len + position == length), None when unrelated"""
     def lin(n, depth=0):
@@ -484,6 +491,12 @@ def classify_guard(f, atom, pol, lenp, POS, LEN):
     d = {k_: v for k_, v in d.items() if v}
     neg = {">": "<=", ">=": "<", "<": ">=", "<=": ">"}
     rel = atom["op"] if pol else neg[atom["op"]]
+    if want_slack:
+        if d == {"len": 1, "POS": 1, "LEN": -1} and rel in ("<=", "<"):
+            return c if rel == "<=" else c + 1
+        if d == {"len": -1, "POS": -1, "LEN": 1} and rel in (">=", ">"):
+            return -c if rel == ">=" else -c + 1
+        return None
     if d == {"len": 1, "POS": 1, "LEN": -1}:
         if (rel == "<=" and c >= 1) or (rel == "<" and c >= 0):
             return atom.src
